@@ -118,7 +118,8 @@ pub fn render_obo(rng: &mut Rng, f: &Facts, flags: &Flags, case: &mut Case, oo: 
         if rng.chance(1, 4) && l.len() > 3 {
             // tag order is free: all lines behind the id in a random order (is_a lines apart from
             // each other, separated by xref / synonym / def lines)
-            let mut tail: Vec<String> = l.split_off(2);
+            // (half of the time the `id:` line is shuffled as well: it need not be the first tag)
+            let mut tail: Vec<String> = l.split_off(if rng.chance(1, 2) { 1 } else { 2 });
             rng.shuffle(&mut tail);
             l.extend(tail);
             case.stat("stanzas_with_shuffled_lines", 1);
